@@ -1,0 +1,27 @@
+//go:build verif
+
+package comparison
+
+// Contracts read by the verification engine in /verif (govc). Comment-only file.
+//
+//@ func GenerateMD5PodTemplateSpec
+//@   pure
+//@   trusted
+//@   reads nothing
+//@ func ComparePodTemplateSpecMD5Hash
+//@   transparent
+//@   requires rs != nil
+//@ func IsReplicaSetUpToDate
+//@   transparent
+//@   requires rs != nil && daemonset != nil
+//@   ensures [C13] up-to-date-means-recorded-hash-matches: result <==> snd(GenerateMD5PodTemplateSpec(&daemonset.Spec.Template)) == nil
+//@             && ("extendeddaemonset.datadoghq.com/templatehash" in rs.ObjectMeta.Annotations)
+//@             && rs.ObjectMeta.Annotations["extendeddaemonset.datadoghq.com/templatehash"] == fst(GenerateMD5PodTemplateSpec(&daemonset.Spec.Template))
+//@ func SetMD5PodTemplateSpecAnnotation
+//@   requires rs != nil && daemonset != nil
+//@   modifies rs.ObjectMeta.Annotations, mapof(rs.ObjectMeta.Annotations)
+//@   ensures [C13] records-the-template-hash: result1 == nil ==> result == fst(GenerateMD5PodTemplateSpec(&daemonset.Spec.Template))
+//@             && rs.ObjectMeta.Annotations != nil && rs.ObjectMeta.Annotations["extendeddaemonset.datadoghq.com/templatehash"] == result
+//@   ensures result1 == nil <==> snd(GenerateMD5PodTemplateSpec(&daemonset.Spec.Template)) == nil
+//@   ensures same-map-unless-nil: old(rs.ObjectMeta.Annotations) != nil ==> rs.ObjectMeta.Annotations == old(rs.ObjectMeta.Annotations)
+//@   ensures fresh-map-if-nil: old(rs.ObjectMeta.Annotations) == nil && result1 == nil ==> fresh(rs.ObjectMeta.Annotations)
